@@ -4,6 +4,7 @@
 -/
 import AdaptixModel.Retort.Router
 import AdaptixProofs.Lemmas.Router
+import AdaptixProofs.Lemmas.RouterLog
 
 namespace Adaptix.Router.C09
 
@@ -99,6 +100,149 @@ theorem instance_before_class {H : Type} (rr : RetortRecipe (Checker × H)) (r :
     matching r rr.full =
       matching r rr.head ++ matching r rr.inst ++ matching r rr.cls ++ matching r rr.tail := by
   simp [RetortRecipe.full, matching, List.filter_append]
+
+/-- the `Chain.LAST` counterpart of `chain_first_via_router` -/
+theorem chain_last_via_router (cs : List (Checker × Handler)) (r : Req)
+    (pre rest : List Handler) (f : Nat) (w : List Nat)
+    (hm : matching r cs = pre ++ Handler.chainLast f :: rest)
+    (hpre : ∀ h ∈ pre, h = Handler.decline) (hrest : specSend rest = .ok w) :
+    send (combine cs) r ((combine cs).length + 1) 0 = .ok (w ++ [f]) := by
+  rw [send_eq_spec, hm, chain_last_once pre rest f w hpre hrest]
+
+/-! ### The consultation log of the bus itself (not only of the all-decline walk)
+
+  `sendLog` (`Lemmas/RouterLog.lean`) is `send` instrumented with the handlers it invokes.  `H` is any label
+  type, e.g. the handler paired with its recipe position; `act` reads the behaviour off the label. -/
+
+/-- the instrumentation does not change the outcome: the logged bus returns what `send` returns -/
+theorem send_log_result {H : Type} (act : H → Handler) (cs : List (Checker × H)) (r : Req) :
+    (sendLog act (combine cs) r ((combine cs).length + 1) 0).1 =
+      send (combine (cs.map fun p => (p.1, act p.2))) r
+        ((combine (cs.map fun p => (p.1, act p.2))).length + 1) 0 := by
+  rw [send_eq_spec, matching_map, sendLog_eq_specLog _ _ _ _ _ (by omega), specLog_fst]
+  simpa using congrArg (fun l => specSend (l.map act)) (answers_combine r cs)
+
+/-- **Who is consulted.**  For every recipe and request that is served (or stopped by a terminal decline), the
+    handlers the bus invokes - through the optimised router, with chaining providers delegating to the next -
+    are exactly the matching providers in recipe order up to and including the first one that neither declines
+    nor delegates; nothing after it is consulted. -/
+theorem served_request_consults_prefix {H : Type} (act : H → Handler) (cs : List (Checker × H)) (r : Req)
+    (hfound : specSend ((matching r cs).map act) ≠ .notFound) :
+    (sendLog act (combine cs) r ((combine cs).length + 1) 0).2 = consulted act (matching r cs) := by
+  rw [sendLog_eq_specLog _ _ _ _ _ (by omega)]
+  have h : answers r ((combine cs).drop 0) = matching r cs := by simpa using answers_combine r cs
+  rw [h]
+  exact specLog_snd_found act _ (by rw [specLog_fst]; exact hfound)
+
+/-- **Providers after the serving one are consulted only if it declines or delegates**: in the log of a served
+    request every handler but the last passed the request on (declined or chained to the next), the last one
+    decided it, and the log is an initial segment of the matching providers. -/
+theorem later_consulted_only_after_delegation {H : Type} (act : H → Handler) (cs : List (Checker × H)) (r : Req)
+    (hfound : specSend ((matching r cs).map act) ≠ .notFound) :
+    let log := (sendLog act (combine cs) r ((combine cs).length + 1) 0).2
+    log <+: matching r cs ∧ (∀ h ∈ log.dropLast, (act h).passesOn = true) ∧
+      ∃ h, log.getLast? = some h ∧ (act h).passesOn = false := by
+  intro log
+  have hlog : log = consulted act (matching r cs) := served_request_consults_prefix act cs r hfound
+  rw [hlog]
+  exact ⟨consulted_prefix act _, consulted_init_delegates act _, consulted_last_decides act _ hfound⟩
+
+/-- **No provider is consulted twice for a served request** - for the bus with chaining and declining
+    handlers, not only for the walk: the recipe positions of the invoked handlers are strictly increasing. -/
+theorem no_provider_twice_send (cs : List (Checker × Handler)) (r : Req)
+    (hfound : send (combine cs) r ((combine cs).length + 1) 0 ≠ .notFound) :
+    ((sendLog Prod.fst (combine (labelled cs)) r ((combine (labelled cs)).length + 1) 0).2.map (·.2)).Pairwise
+      (· < ·) := by
+  have hmap : (labelled cs).map (fun p => (p.1, p.2.1)) = cs := by
+    simp only [labelled, List.map_map]
+    have : ((fun p : Checker × (Handler × Nat) => (p.1, p.2.1)) ∘
+        fun p : (Checker × Handler) × Nat => (p.1.1, (p.1.2, p.2))) = Prod.fst := by
+      funext p; rfl
+    rw [this, List.zipIdx_map_fst]
+  have hf : specSend ((matching r (labelled cs)).map Prod.fst) ≠ .notFound := by
+    rw [← matching_map (fun q : Handler × Nat => q.1), hmap, ← send_eq_spec]
+    exact hfound
+  rw [served_request_consults_prefix Prod.fst (labelled cs) r hf]
+  have hp : (labelled cs).Pairwise (fun a b => a.2.2 < b.2.2) := by
+    unfold labelled
+    apply List.pairwise_map.mpr
+    have h1 : ((cs.zipIdx).map Prod.snd).Pairwise (· < ·) := by
+      rw [List.zipIdx_map_snd]; exact List.pairwise_lt_range'
+    exact List.pairwise_map.mp h1
+  have hm : (matching r (labelled cs)).Pairwise (fun a b => a.2 < b.2) := by
+    unfold matching
+    exact List.pairwise_map.mpr ((hp.filter _).imp (fun h => h))
+  exact List.pairwise_map.mpr ((hm.sublist (consulted_prefix _ _).sublist).imp (fun h => h))
+
+/-- the hypothesis of `no_provider_twice_send` is needed, and this is the behaviour of the code: when a
+    chaining provider's delegated search finds nothing, `provide_from_next` raises a non-terminal
+    `CannotProvide` out of the chaining handler and `_send_inner` continues after it - the remaining providers
+    are walked a second time (position 1 below is invoked twice; the outcome is the failure either way).
+    DESIGN.md records the reading: "consulted twice" is per search of the router. -/
+example :
+    let cs : List (Checker × Handler) := [(.exact 0, .chainFirst 7), (.other 0, .decline)]
+    let r : Req := { origin := 0, sat := fun _ => true }
+    sendLog Prod.fst (combine (labelled cs)) r 3 0 =
+      (.notFound, [(.chainFirst 7, 0), (.decline, 1), (.decline, 1)]) := by decide
+
+/-- a served request with a declining, a chaining and a responding provider, a combo table in the router and a
+    shadowed provider behind: hypotheses of the three theorems above hold, positions 0, 1, 3 are invoked once -/
+example :
+    let cs : List (Checker × Handler) :=
+      [(.exact 0, .decline), (.other 0, .chainLast 7), (.exact 1, .respond [1]), (.exact 0, .respond [9]),
+       (.other 1, .respond [5])]
+    let r : Req := { origin := 0, sat := fun _ => true }
+    send (combine cs) r ((combine cs).length + 1) 0 = .ok [9, 7] ∧
+    (sendLog Prod.fst (combine (labelled cs)) r ((combine (labelled cs)).length + 1) 0).2.map (·.2) = [0, 1, 3] := by
+  decide
+
+/-! ### A retort placed in a recipe -/
+
+/-- **A retort in a recipe serves matched requests from its own recipe**: whatever the inner retort's own bus
+    answers for the request is the answer (the outer providers behind it are not asked), a terminal decline of
+    the inner search stops the outer one, and only if the inner recipe has nothing does the outer recipe
+    continue behind the retort.  Earlier outer providers that match must have declined for the retort to be
+    reached at all (`hpre`). -/
+theorem nested_retort_serves_own_recipe (inner outerPre outerPost : List (Checker × Handler)) (always : Nat)
+    (r : Req) (hal : r.sat always = true) (hpre : ∀ h ∈ matching r outerPre, h = Handler.decline) :
+    let innerRes := send (combine inner) r ((combine inner).length + 1) 0
+    let cs := outerPre ++ (Checker.other always, nestedHandler innerRes) :: outerPost
+    send (combine cs) r ((combine cs).length + 1) 0 =
+      match specSend (matching r inner) with
+      | .ok w => .ok w
+      | .terminal => .terminal
+      | .notFound => specSend (matching r outerPost) := by
+  intro innerRes cs
+  have hi : innerRes = specSend (matching r inner) := send_eq_spec inner r
+  have hm : matching r cs = matching r outerPre ++ nestedHandler innerRes :: matching r outerPost := by
+    show matching r (outerPre ++ (Checker.other always, nestedHandler innerRes) :: outerPost) = _
+    rw [matching_append]
+    simp [matching, Checker.check, hal]
+  rw [send_eq_spec, hm, specSend_append_declines _ _ hpre, hi]
+  cases specSend (matching r inner) <;> simp [nestedHandler, specSend]
+
+/-- non-vacuity of `nested_retort_serves_own_recipe`, `chain_first_once`, `chain_last_once` and the
+    `*_via_router` corollaries: hypotheses that hold together on recipes with several providers -/
+example :
+    let inner : List (Checker × Handler) := [(.exact 1, .respond [1]), (.exact 0, .chainFirst 3), (.other 2, .respond [4])]
+    let outerPre : List (Checker × Handler) := [(.exact 0, .decline), (.exact 1, .respond [8])]
+    let r : Req := { origin := 0, sat := fun _ => true }
+    r.sat 5 = true ∧ (∀ h ∈ matching r outerPre, h = Handler.decline) ∧
+      specSend (matching r inner) = .ok [3, 4] := by
+  refine ⟨rfl, ?_, by decide⟩
+  intro h hh
+  have : matching { origin := 0, sat := fun _ => true } [(Checker.exact 0, Handler.decline), (.exact 1, .respond [8])]
+      = [Handler.decline] := by decide
+  rw [this] at hh
+  simpa using hh
+
+example :
+    let cs : List (Checker × Handler) :=
+      [(.exact 0, .decline), (.other 0, .decline), (.exact 0, .chainFirst 7), (.exact 1, .respond [1]), (.other 1, .respond [2])]
+    let r : Req := { origin := 0, sat := fun _ => true }
+    matching r cs = [Handler.decline, .decline] ++ Handler.chainFirst 7 :: [.respond [2]] ∧
+      (∀ h ∈ [Handler.decline, Handler.decline], h = Handler.decline) ∧ specSend [.respond [2]] = .ok [2] := by
+  refine ⟨by decide, by simp, by decide⟩
 
 /-! Non-vacuity: a concrete recipe with a one-element combo followed by a
     non-exact checker (the arrangement on which the unrepaired combiner
